@@ -33,7 +33,9 @@ def run(ctx):
             (fm if '"ev":"mq"' in line[:60] else fo).write(line)
     mshards = vlib.shard_trace(mqf, wd, vlib.NCPU, prefix="mq", max_bytes=6 << 20)
     oshards = vlib.shard_trace(otf, wd, vlib.NCPU, prefix="ot", max_bytes=6 << 20)
-    v1 = vlib.validate(wd, "MqTrace", mshards, timeout=3000 if ctx.quick else 14400)
+    # thorough: single events of 10^5 decisions are 5 MB lines with fifteen arrays: fewer, larger JVMs
+    v1 = vlib.validate(wd, "MqTrace", mshards, timeout=3000 if ctx.quick else 14400, heap="3g" if ctx.quick else "7g",
+                       parallel=None if ctx.quick else 6)
     v2 = vlib.validate(wd, "C20Trace", oshards, timeout=3000 if ctx.quick else 14400, heap="4g")
     val = {"rejects": v1["rejects"] + v2["rejects"], "states": v1["states"] + v2["states"], "transitions": v1["transitions"] + v2["transitions"],
            "lines": v1["lines"] + v2["lines"], "accepted": v1["accepted"] + v2["accepted"], "infos": v1["infos"] + v2["infos"], "classes": set()}
